@@ -29,11 +29,16 @@ void ManagedText::TranslateRefs(const StrTranslator& old2New, const EntityTermCo
 
 void ManagedText::TranslateRaw(const StrTranslator& old2New) {
   auto refs = Reference::ExtractAll(rawText);
+  static constexpr auto prefixLen = 2U; // prefix string: "@{"
   for (auto ref = rbegin(refs); ref != rend(refs); ++ref) {
-    if (ref->IsEntity() && ref->TranslateEntity(old2New)) {
-      const auto start = UTF8Iterator(rawText, ref->position.start).BytePosition();
-      const auto oldLength = UTF8Iterator(rawText, ref->position.finish).BytePosition() - start;
-      rawText.replace(start, oldLength, ref->ToString());
+    if (!ref->IsEntity()) {
+      continue;
+    }
+    const auto oldLength = size(ref->GetEntity());
+    if (ref->TranslateEntity(old2New)) {
+      // Note: only the name is replaced, the rest of the reference is kept as it was written
+      const auto start = UTF8Iterator(rawText, ref->position.start).BytePosition() + prefixLen;
+      rawText.replace(start, oldLength, ref->GetEntity());
     }
   }
 }
